@@ -165,7 +165,7 @@ def run(ctx: Ctx) -> None:
         "AND a look-alike name (distinct by file set)."
     )
     ctx.assumptions = ["a file is 'located in' an excluded directory when one of the directory segments between the package root and the file is named test, tests or docs"]
-    failures = engine.search(ctx, MOD, shards=ctx.n(16, 96), examples=ctx.n(8, 30))
+    failures = engine.search(ctx, MOD, shards=ctx.n(16, 96), examples=ctx.n(12, 30))
     engine.report_failures(ctx, MOD, failures)
     engine.replay_known(ctx, MOD)
 
